@@ -2,7 +2,7 @@
 # Import the seeded changes sub-agents have finished (round R, variants V1 V2): each is confirmed in a fresh worktree by selftest/verify_seed.py
 # (demo passes without the change, 470 tests pass with it, demo fails with it) and stored under /verif/seeded/<prop>_<variant>/.
 # The sub-agent's worktree /tmp/sw<R>_<prop> and output directory /tmp/so<R>_<prop> are removed afterwards.
-R=${R:-5}; V1=${V1:-i}; V2=${V2:-j}
+R=${R:-6}; V1=${V1:-k}; V2=${V2:-l}
 cd "$(dirname "$0")/.."
 for d in /tmp/so${R}_C*; do
   [ -d "$d" ] || continue
